@@ -254,6 +254,26 @@ def run(ctx):
         cases.append({'ids': ids, 'version': 33, 'edition': 4, 'nsub': nsub, 'compressed': False, 'forced': '||'.join(variants),
                       'seed': rng.randrange(1, 2 ** 32), 'maxrep': 3, 'features': {'same-boundary-different-layout': 1},
                       'shared': False})
+    # after 235000 a new bitmap LONGER than the elements coded since: it reaches back over the marker values (and the
+    # significance / bitmap elements) of the earlier operator; marker values are not elements and are passed over
+    for k in range(ctx.n(16, 200)):
+        e = rng.sample([12001, 10004, 11001, 7001, 1001, 20003, 13003, 2001], 5)
+        op = rng.choice([223, 224, 225, 232])
+        n1 = rng.choice([2, 3])
+        bits1 = [0] * n1 if k % 2 == 0 else [0] + [rng.randrange(2) for _ in range(n1 - 1)]
+        sig = [8023] if op == 224 else [8024] if op == 225 else []
+        m = rng.choice([0, 1, 2])
+        n2 = m + rng.choice([1, 2, 3])
+        bits2 = [rng.randrange(2) for _ in range(n2)]
+        bits2[rng.randrange(n2)] = 0
+        op2 = rng.choice([222, 222, 223, 232])
+        tail2 = [33007] * bits2.count(0) if op2 == 222 else [op2 * 1000 + 255] * bits2.count(0)
+        ids = e[:3] + [op * 1000, 236000, 101000 + n1, 31031] + sig + [op * 1000 + 255] * bits1.count(0) + [235000] + e[3:3 + m] + \
+              [op2 * 1000] + ([236000] if k % 3 == 0 else []) + [101000 + n2, 31031] + tail2
+        comp = rng.random() < 0.35
+        cases.append({'ids': ids, 'version': 33, 'edition': 4, 'nsub': rng.choice([1, 2]), 'compressed': comp,
+                      'forced': '31031=' + '.'.join(map(str, bits1 + bits2)), 'seed': rng.randrange(1, 2 ** 32), 'maxrep': 3,
+                      'features': {'after-235000-bitmap-reaches-over-marker-values': 1}, 'shared': comp})
     P.attach_templates(cases)
     P.run_gen(cases)
     P.run_encode(cases)
